@@ -285,7 +285,7 @@ def run_glv(case):
         # fields: exponent polynomials; basis = one-hot per species + pair sums over (species, monomial)
         basis = [(s, m) for s in range(ns) for m in range(M)]
         combos = [(b,) for b in basis] + list(itertools.combinations(basis, 2))
-        u_dict = {n: nets.make_pinn(ExpPoly(jnp.zeros((1, M)), tuple(expo)), "ODE", 1) for n in names}
+        u_dict = {n: nets.make_pinn(ExpPoly(jnp.zeros((1, M)), tuple(expo)), "ODE", 1) for n in reversed(names)}  # non-alphabetical insertion
         for r_, c_, a_ in itertools.product([0.4, -1.2], [0.3, 1.1], [0, 1]):
             inter = {n: np.array([0.2 + 0.3 * j + 0.5 * i * (1 if a_ else -1) for j in range(ns)]) for i, n in enumerate(names)}
             per = {n: {"growth_rate": jnp.asarray(r_ + 0.1 * i), "carrying_capacity": jnp.asarray(c_ - 0.05 * i), "interactions": jnp.asarray(inter[n])}
@@ -297,7 +297,7 @@ def run_glv(case):
                 for (s, m) in combo:
                     coefs[names[s]][0, m] += 0.5
                 pd = jinns.parameters.ParamsDict(
-                    nn_params={n: eqx.tree_at(lambda mm: mm.coef, u_dict[n].init_params(), jnp.asarray(coefs[n])) for n in names}, eq_params=eqp)
+                    nn_params={n: eqx.tree_at(lambda mm: mm.coef, u_dict[n].init_params(), jnp.asarray(coefs[n])) for n in names[1:] + names[:1]}, eq_params=eqp)
                 got = np.array([np.asarray(dl.evaluate(jnp.asarray(t), u_dict, pd)).reshape(-1)[0] for t in ts]) if False else None
                 f = _glv_eval(dl, u_dict)
                 got = np.asarray(f(jnp.asarray(ts), pd)).reshape(len(ts))
